@@ -91,7 +91,10 @@ def run(res):
         nd = defs.count(";") + 1
         nfuncs[nd] = nfuncs.get(nd, 0) + 1
         why = None
-        if flags.get("det") != "1":
+        if flags.get("held") == "0":
+            why = ("bytes returned by MarshalCode changed (or no longer unmarshal) after other code was marshalled: the stored form of "
+                   "this program, or of the program marshalled just before it, is not what was returned")
+        elif flags.get("det") != "1":
             why = "marshalling the same code twice gave different bytes"
         elif not flags.get("unmarshal", "").startswith("ok"):
             why = "unmarshalling the marshaller's own output failed: " + flags.get("unmarshal", "")
@@ -115,7 +118,7 @@ def run(res):
 
     cov["evaluations"] = len(srcs)
     cov["distinct_nontrivial"] = len(distinct)
-    cov["rule"] = ("the programs of the C01 and C02 generators plus the harvested corpus: each is compiled, marshalled twice, unmarshalled, "
+    cov["rule"] = ("the programs of the C01 and C02 generators plus the harvested corpus: each is compiled, marshalled twice (the returned bytes are held and must stay as returned while later programs are marshalled), unmarshalled, "
                    "re-marshalled, and original and reloaded code are evaluated side by side (value, error class, print trace) and compared "
                    "structurally (instructions, constants incl. defaults, names, locals, parent and function-constant links, named flags); "
                    "the extracted Marshal.relink is run on the real flat definitions and compared with the links UnmarshalCode rebuilt. "
